@@ -228,4 +228,49 @@ def runCalls (step : TState → List Rat → TState × List Rat) : TState → Li
   | _, [] => []
   | st, cur :: rest => (step st cur).2 :: runCalls step (step st cur).1 rest
 
+/-! ## the read-back block of `OptimizationProblem.optimize()`
+
+From the solver call to `return success` (`optimization_problem.py:153-219`): which attribute is
+assigned from which solver result, and whether the assignment sits under a condition.  The table
+is re-derived from the source on every run (`harness/translate_c06.py`, `Gen/Readback.lean`). -/
+
+/-- one assignment of the block: attribute, where its value comes from, under a condition? -/
+structure RbAssign where
+  attr : String
+  source : String
+  guarded : Bool
+deriving DecidableEq, Repr
+
+/-- the block as it is (sorted by attribute): everything is assigned on every call, whatever the
+    solver reports -/
+def readbackModel : List RbAssign :=
+  [⟨"@success", "solver_success(solver_stats)", false⟩,
+   ⟨"lam_g", "results.get(lam_g)", false⟩,
+   ⟨"lam_x", "results.get(lam_x)", false⟩,
+   ⟨"objective_value", "results[f]", false⟩,
+   ⟨"solver_output", "results[x]", false⟩,
+   ⟨"solver_stats", "solver.stats()", false⟩,
+   ⟨"transcribed_problem", "dict(lbg=lbg,lbx=lbx,nlp=nlp,ubg=ubg,ubx=ubx,x0=x0)", false⟩]
+
+/-- what `objective_value` and `solver_output` expose -/
+structure RbState (X : Type) where
+  objective : Option Rat
+  output : Option X
+
+/-- does a call with outcome `success` assign `attr` from `results[key]` according to the table? -/
+def rbUpdates (tbl : List RbAssign) (attr key : String) (success : Bool) : Bool :=
+  tbl.any (fun a => a.attr == attr && a.source == "results[" ++ key ++ "]" && (!a.guarded || success))
+
+/-- one call of `optimize()` seen through a table: the solver returns the point `x` with
+    `results["f"] = f x` (solver contract) and reports `success` -/
+def rbStep {X : Type} (tbl : List RbAssign) (f : X → Rat) (st : RbState X) (x : X) (success : Bool) :
+    RbState X :=
+  ⟨if rbUpdates tbl "objective_value" "f" success then some (f x) else st.objective,
+   if rbUpdates tbl "solver_output" "x" success then some x else st.output⟩
+
+/-- a sequence of calls on one object -/
+def rbRun {X : Type} (tbl : List RbAssign) (f : X → Rat) : RbState X → List (X × Bool) → RbState X
+  | st, [] => st
+  | st, c :: rest => rbRun tbl f (rbStep tbl f st c.1 c.2) rest
+
 end RtcVerif.C06
